@@ -491,6 +491,8 @@ class FluidPropertyPolynominal(FluidProperty):
     Creates Property with a polynominal course.
     """
 
+    json_excludes = JSONSerializableClass.json_excludes + ["prop_getter", "prop_int_getter"]
+
     def __init__(self, x_values, y_values, polynominal_degree):
         """
 
@@ -555,6 +557,35 @@ class FluidPropertyPolynominal(FluidProperty):
         """
         values = np.loadtxt(path)
         return cls(values[:, 0], values[:, 1], polynominal_degree)
+
+    def to_dict(self):
+        """
+        Serializes the property. The polynomial objects are not JSON-serializable, therefore the
+        coefficients are stored instead.
+
+        :return: d - dictionary with the coefficients of the regression polynomial
+        :rtype: dict
+        """
+        d = super(FluidPropertyPolynominal, self).to_dict()
+        d.update({"coefficients": np.array(self.prop_getter.coeffs)})
+        return d
+
+    @classmethod
+    def from_dict(cls, d):
+        """
+        Restores the property (including the polynomial and its integral) from the coefficients.
+
+        :param d: dictionary as created by to_dict
+        :type d: dict
+        :return: obj - the restored fluid property
+        :rtype: FluidPropertyPolynominal
+        """
+        obj = JSONSerializableClass.__new__(cls)
+        d2 = {k: v for k, v in d.items() if k != "coefficients"}
+        obj.__dict__.update(d2)
+        obj.prop_getter = np.poly1d(np.array(d["coefficients"], dtype=np.float64))
+        obj.prop_int_getter = np.polyint(obj.prop_getter)
+        return obj
 
 
 class FluidPropertySutherland(FluidProperty):
